@@ -70,6 +70,20 @@ CLAIMED = {
         'technique': 'Lean 4 proof (Finset.sum reindexing, omega) + differential correspondence of the executable kernels',
         'design_ref': '§5 C09',
     },
+    'C13': {
+        'text': ('Lean theorems about the executable model of numpy.moveaxis\' algorithm, of ravel\'s axis normalisation and '
+                 'slicing and of reshape\'s -1 inference: accepted ravels and reshapes preserve every leaf\'s size, the '
+                 'constructor guards reject exactly the stated arguments (first axis after last for equal or mixed signs, '
+                 'sizes below -1, a second -1, a target of a different size); the permutation theorems for move-axis '
+                 '(order is a permutation, moved axes land at their destinations, swapping source and destination inverts) '
+                 'are proved in FuraxProofs/Lemmas/MoveAxisPerm.lean when present.  Model and implementation are compared on '
+                 'leaves of pairwise distinct sizes filled with distinct integers (shape + element order), and NumPy itself '
+                 'is the oracle on the implementation, together with transpose = inverse and reduce() → identity iff no-op.'),
+        'note': ('Trusted: Lean kernel + standard axioms; A1 (jnp.moveaxis/reshape behave as NumPy, re-checked on every case). '
+                 'In the model ravel/reshape leave the row-major data untouched by construction.'),
+        'technique': 'Lean 4 proof (list/arith lemmas) + differential correspondence against the model and NumPy',
+        'design_ref': '§5 C13',
+    },
 }
 
 ALL = [f'C{i:02d}' for i in range(1, 21)]
